@@ -96,7 +96,7 @@ def cases(ctx):
     rng = ctx.rng
     jobs = []
     meta = []
-    nmsg = ctx.n(8, 150)
+    nmsg = ctx.n(8, 40)
     made = 0
     tries = 0
     clamp = []
@@ -126,7 +126,7 @@ def cases(ctx):
     # messages whose record sets all have owners that appear nowhere earlier, signed with a key named
     # at or below the owner of a record set that the sweep cuts: a compression entry that survived the
     # rollback of that record set would be used by the TSIG owner name
-    for i in range(ctx.n(3, 40)):
+    for i in range(ctx.n(3, 10)):
         zones = [[b"zone%d" % j, b"test", b""] for j in range(3)]
         secs = [[[[b"q"] + zones[0], g.IN, g.SOA, 0, None, 0, []]], [], [], []]
         k = 0
@@ -187,12 +187,12 @@ def cases(ctx):
     am = [1, 0, [[[[b"a", b""], 1, 1, 0, None, 0, []]], [], [], []], [0, 1232, [[65001, bytes(600)]]], None]
     yield "reserve-too-large", [1, am, None, 512, 0, 1, 0]
     # low-level Renderer sequences: TooBig caught by the caller, then more records with the same owner
-    for i in range(ctx.n(150, 4000)):
+    for i in range(ctx.n(150, 1500)):
         origin = None if rng.random() < 0.8 else [b"o", b"example", b""]
         mid, flags, ms, ops = g.gen_rseq(rng, origin)
         yield "rseq", [7, origin, mid, flags, ms, ops]
     # signed sweeps (oracle only)
-    for i in range(ctx.n(2, 40)):
+    for i in range(ctx.n(2, 12)):
         am = g.gen_query_like(rng, None, "medium", opcode=0, with_tsig=False)
         if am[3] is None:
             am[3] = [0, 1232, []]
